@@ -1098,7 +1098,7 @@ def string_level_perturb(rng, md):
         return None
     p = rng.choice(paths)
     rk, _, logical = p.partition("/")
-    tag = rng.choice(["bad-rank", "rank-out-of-range", "negative-rank", "no-slash", "plus-rank", "leading-zero", "shared-object",
+    tag = rng.choice(["bad-rank", "rank-out-of-range", "negative-rank", "no-slash", "plus-rank", "leading-zero", "move-to-end",
                       "empty-logical"])
     e = man.pop(p)
     if tag == "bad-rank":
